@@ -66,7 +66,7 @@ ACGT == {"a", "c", "g", "t"}
 Near1 == {"same", "sub", "del", "ins", "ext", "far"}
 QNearQuick == { <<"a","c","a","c","a","c","a">>, <<"a","c","g","t","a","c","g">>, <<"a","a","c","c","a","a","c","c">>,
                 <<"a","c","a","a","c">> }
-SuiteNear(qs, al, nr) == [name |-> "near", queries |-> qs, alpha |-> al, families |-> Near1, nrefs |-> nr, fillers |-> F3, pats |-> {0}]
+SuiteNear(qs, al, nr) == [name |-> IF al = AC THEN "near" ELSE "near4", queries |-> qs, alpha |-> al, families |-> Near1, nrefs |-> nr, fillers |-> F3, pats |-> {0}]
 SuiteIdx(qs, al)      == [name |-> "idx", queries |-> qs, alpha |-> al, families |-> {"same", "sub", "sub2", "ext"},
                           nrefs |-> {3}, fillers |-> F10, pats |-> {0, 3, 9, 11}]
 SuiteTwo(qs, al)      == [name |-> "two", queries |-> qs, alpha |-> al, families |-> {"same", "sub", "sub2", "endins2"},
